@@ -130,6 +130,90 @@ def has_guard(fi, n, pattern, polarity, srcs=None):
     return False
 
 
+def outcome_edges(fi, pattern, polarity):
+    """CFG edges (a, b, label) taken exactly when a test whose normal form
+    matches ``pattern`` has the truth value ``polarity``."""
+    cfg = fi.cfg
+    out = set()
+    for t in cfg.nodes:
+        if t.kind != 'test' or t.id not in cfg.live:
+            continue
+        text, p = norm_guard(fi, t.ast, True)
+        if _match(pattern, text):
+            lab = 't' if p == polarity else 'f'
+            for (b, l) in cfg.succ[t.id]:
+                if l == lab:
+                    out.add((t.id, b, l))
+    return out
+
+
+def inside(fi, n, stmts):
+    """Is CFG node n's code inside one of the ast statements (lists)?"""
+    target = n.ast if n.ast is not None else n.stmt
+    if n.kind in ('for', 'with_enter', 'with_exit', 'except', 'loop'):
+        target = n.stmt
+    if target is None:
+        return False
+    for st in stmts:
+        for x in ast.walk(st):
+            if x is target:
+                return True
+    return False
+
+
+def loop_early_exits(fi, loopnode):
+    """CFG nodes inside the loop body that leave the loop other than through
+    the loop head (break / return), ignoring exception edges."""
+    cfg = fi.cfg
+    body = {n.id for n in cfg.nodes if n.id in cfg.live and inside(fi, n, loopnode.stmt.body)}
+    out = []
+    for a in sorted(body):
+        for (b, l) in cfg.succ[a]:
+            if l != 'x' and b not in body and b != loopnode.id:
+                out.append(cfg.nodes[a])
+    return out
+
+
+def every_iteration_passes(fi, loopnode, through, block_edges=(), completed=False):
+    """In the loop headed by ``loopnode`` (for/loop kind), does every path
+    from the start of the body back to the head (or out of the loop by
+    break/fall) pass a ``through`` node?  Returns (ok, witness)."""
+    cfg = fi.cfg
+    starts = [b for (b, l) in cfg.succ[loopnode.id] if l in ('t', 'n')]
+    if loopnode.kind == 'loop':
+        # while: body starts behind the test chain; take every node of the body
+        body = loopnode.stmt.body
+        starts = [n.id for n in cfg.nodes if n.id in cfg.live and inside(fi, n, body[:1])][:1] or starts
+    through = {n.id for n in through}
+    body_nodes = {n.id for n in cfg.nodes if n.id in cfg.live and inside(fi, n, loopnode.stmt.body)}
+    outside = {n.id for n in cfg.nodes if n.id in cfg.live} - body_nodes
+    dsts = outside | {loopnode.id}
+    r = cfg.reach(starts, block_nodes=through if not completed else (), block_edges=block_edges,
+                  completed=through if completed else (), include_src=True, skip_labels=('x',))
+    # only paths that stay inside the body until they leave
+    bad = set()
+    seen = set()
+    todo = [s for s in starts if s not in through]
+    be = set(block_edges)
+    while todo:
+        a = todo.pop()
+        if a in seen:
+            continue
+        seen.add(a)
+        if a in dsts:
+            bad.add(a)
+            continue
+        for (b, l) in cfg.succ[a]:
+            if l == 'x' or (a, b, l) in be:
+                continue
+            if b in through:
+                continue
+            todo.append(b)
+    if bad:
+        return False, cfg.path(starts, bad, block_nodes=through, block_edges=be, skip_labels=('x',))
+    return True, None
+
+
 def eq_text(a, b):
     x, y = sorted([a, b])
     return '%s == %s' % (x, y)
